@@ -75,7 +75,7 @@ def floors(tier):
             "counters.overlap.create_db.runs": 10 if q else 300, "counters.overlap.bootstrap-window.runs": 2 if q else 50,
             "counters.variant.backup": 4, "counters.variant.wal": 4, "counters.variant.bootstrap-absent": 4,
             "counters.variant.bootstrap-present": 4, "counters.variant.slow-reader": 1, "counters.variant.nodb": 1,
-            "counters.bootstrap-row-added.runs": 2,
+            "counters.bootstrap-row-added.runs": 2, "counters.restore-window-entered-by>=2.runs": 2 if q else 30,
             "sets.interleavings": 25 if q else 700, "sets.k": 4,
             "anchors.core.create_db": 100, "anchors.luaexec.add_empty_sandbox_lua_module": 50,
             "anchors.luaexec.initialize_lua": 50, "anchors.core.add_page": 5, "anchors.core.expand": 300,
@@ -93,9 +93,9 @@ def grid(tier):
 
 
 def shards(tier, seed):
-    nsh = {"quick": 4, "thorough": 6}[tier]
-    per = {"quick": 18, "thorough": 250}[tier]
-    slow = {"quick": 1, "thorough": 4}[tier]
+    nsh = {"quick": 4, "thorough": 8}[tier]     # a case is itself up to 16 (mostly sleeping) processes
+    per = {"quick": 18, "thorough": 188}[tier]
+    slow = {"quick": 1, "thorough": 3}[tier]
     g = grid(tier)
     rng = random.Random(seed * 7919 + 13)
     rng.shuffle(g)
